@@ -93,6 +93,11 @@ def main():
     ap.add_argument("--only", default=None, help="run only this stream")
     a = ap.parse_args()
     core.quiet_imports()
+    import pgmpy
+    repo = os.path.realpath(os.environ.get("VERIF_REPO", "/repo"))
+    if not os.path.realpath(pgmpy.__file__).startswith(repo + os.sep):
+        print(f"internal error: pgmpy imported from {pgmpy.__file__}, not from {repo}", file=sys.stderr)
+        sys.exit(3)
     t0 = time.time()
     streams, mod = get_streams(a.prop)
     budget = a.budget or (getattr(mod, "BUDGET_QUICK", 75) if a.tier == "quick" else getattr(mod, "BUDGET_THOROUGH", 900))
